@@ -144,7 +144,8 @@ class ByteArray(SimpleModel):
             else:
                 return (urlsafe_b64decode(value),)
 
-        except TypeError as e:
+        except (TypeError, ValueError) as e:
+            # binascii.Error is a ValueError
             logger.exception(e)
 
             if len(value) < 100:
